@@ -29,7 +29,6 @@
 __CPROVER_requires(CTX_REGS_PRE(context)) \
 __CPROVER_requires(ENUM_OK(name)) \
 __CPROVER_requires(COH_REGS(context)) \
-__CPROVER_requires(gh_srq_n >= 0 && gh_srq_n < 1000) \
 __CPROVER_assigns(REGS_ALL(context), GHOST_SRQ) \
 /* out of range: nothing happens */ \
 __CPROVER_ensures(name >= SCPI_REG_COUNT ==> (UNCH(context, SCPI_REG_STB) && UNCH(context, SCPI_REG_SRE) && UNCH(context, SCPI_REG_ESR) && UNCH(context, SCPI_REG_ESE) \
